@@ -1413,6 +1413,11 @@ impl<T: Transport + 'static> SyncEngine<T> {
         // Build destination file map for quick lookup (relative path -> FileEntry)
         let mut dest_map = std::collections::HashMap::new();
         for file in &dest_files {
+            // Only files can match a source file (a directory at the same path is
+            // not a counterpart: the source file is then only in the source)
+            if file.is_dir {
+                continue;
+            }
             let rel_path = file
                 .path
                 .strip_prefix(destination)
@@ -1422,12 +1427,27 @@ impl<T: Transport + 'static> SyncEngine<T> {
         }
 
         // Create integrity verifier for checksum computation
-        let checksum_type = if self.checksum {
+        // (mode `fast` selects no checksum at all, which would make every pair of
+        // files compare equal: verification always needs a real checksum)
+        let checksum_type = if self.checksum || self.verification_mode == ChecksumType::None {
             ChecksumType::Fast // Use xxHash3 for fast verification
         } else {
             self.verification_mode // Use user-specified mode
         };
         let verifier = IntegrityVerifier::new(checksum_type, false);
+
+        // Relative paths of all source files (not directories), to decide what is
+        // only in the destination
+        let source_file_paths: std::collections::HashSet<PathBuf> = source_files
+            .iter()
+            .filter(|f| !f.is_dir)
+            .map(|f| {
+                f.path
+                    .strip_prefix(source)
+                    .unwrap_or(&f.path)
+                    .to_path_buf()
+            })
+            .collect();
 
         // Results tracking
         let mut files_matched = 0;
@@ -1498,9 +1518,8 @@ impl<T: Transport + 'static> SyncEngine<T> {
                 .unwrap_or(&dest_file.path)
                 .to_path_buf();
 
-            // Build corresponding source path
-            let source_path = source.join(&rel_path);
-            if !source_path.exists() {
+            // A destination file is only matched by a source *file* at the same path
+            if !source_file_paths.contains(&rel_path) {
                 files_only_in_dest.push(rel_path.clone());
                 tracing::info!("← Only in destination: {}", rel_path.display());
             }
